@@ -25,7 +25,7 @@ func c05Cfg() vestCfg {
 		name: "c05", owners: []string{"A", "B"}, pools: []string{"p", "q"},
 		poolSpecs: []poolSpec{{10, 5 * time.Second, "t5"}, {5, 20 * time.Second, "t0"}},
 		blocks:    []time.Duration{1 * time.Second, 5 * time.Second, 30 * time.Second},
-		sendAmts:  []string{"3", "rem", "rem+1"}, withExtra: true, withInval: true, withUpper: true,
+		sendAmts:  []string{"3", "rem", "rem+1"}, withExtra: true, withInval: true, withUpper: true, withMulti: true,
 	}
 }
 
